@@ -47,6 +47,22 @@ let mismatches = ref [] and nmm = ref 0
 let specfails = ref [] and nsf = ref 0
 let samples = ref [] and total = ref 0
 let keep = 40
+(* input distribution, printed into the evidence: total argument bytes per case, number of arguments,
+   and the leading word of the model's answer (OK / ERR / SAME / ...) *)
+let size_hist = Array.make 6 0       (* 0-8, 9-32, 33-128, 129-1024, 1025-65536, larger *)
+let argc_hist = Array.make 5 0       (* 1, 2, 3-8, 9-64, more *)
+let kinds : (string, int ref) Hashtbl.t = Hashtbl.create 64
+let bucket_size n = if n <= 8 then 0 else if n <= 32 then 1 else if n <= 128 then 2 else if n <= 1024 then 3 else if n <= 65536 then 4 else 5
+let bucket_argc n = if n <= 1 then 0 else if n = 2 then 1 else if n <= 8 then 2 else if n <= 64 then 3 else 4
+let lead_word (s : string) : string =
+  let n = String.length s in
+  let i = ref 0 in
+  while !i < n && !i < 12 && (let c = s.[!i] in (c >= 'A' && c <= 'Z') || (c >= 'a' && c <= 'z') || c = '-') do incr i done;
+  if !i = 0 then "(other)" else String.sub s 0 !i
+let note_kind k =
+  match Hashtbl.find_opt kinds k with
+  | Some r -> incr r
+  | None -> if Hashtbl.length kinds < 48 then Hashtbl.add kinds k (ref 1)
 
 let split_tab s = String.split_on_char '\t' s
 
@@ -80,6 +96,10 @@ let () =
             let st = stat op in
             incr total;
             st.n <- st.n + 1;
+            let bytes_total = List.fold_left (fun a h -> a + String.length h / 2) 0 hargs in
+            size_hist.(bucket_size bytes_total) <- size_hist.(bucket_size bytes_total) + 1;
+            argc_hist.(bucket_argc (List.length hargs)) <- argc_hist.(bucket_argc (List.length hargs)) + 1;
+            note_kind (lead_word model);
             let nontrivial = String.length model >= 2 && String.sub model 0 2 = "OK" in
             if nontrivial then begin
               st.ok <- st.ok + 1;
@@ -120,6 +140,15 @@ let () =
       if not !first then Buffer.add_string b ","; first := false;
       Buffer.add_string b (Printf.sprintf "%s:{\"n\":%d,\"ok\":%d,\"model_mismatch\":%d,\"spec_checked\":%d,\"spec_fail\":%d}"
         (json_str op) s.n s.ok s.mm s.sc s.sf)) stats;
+    Buffer.add_string b "},\"size_hist\":[";
+    Buffer.add_string b (String.concat "," (Array.to_list (Array.map string_of_int size_hist)));
+    Buffer.add_string b "],\"argc_hist\":[";
+    Buffer.add_string b (String.concat "," (Array.to_list (Array.map string_of_int argc_hist)));
+    Buffer.add_string b "],\"result_kinds\":{";
+    let firstk = ref true in
+    Hashtbl.iter (fun k r ->
+      if not !firstk then Buffer.add_string b ","; firstk := false;
+      Buffer.add_string b (Printf.sprintf "%s:%d" (json_str k) !r)) kinds;
     Buffer.add_string b "},\"mismatch_cases\":[";
     Buffer.add_string b (String.concat "," (List.rev_map case !mismatches));
     Buffer.add_string b "],\"spec_fail_cases\":[";
